@@ -771,11 +771,12 @@ theorem draw_first_row (cfg : Cfg) (hgap : 0 ≤ cfg.gap) (hs : List Nat) (hlen 
 
 /-- After `SetCursor(c)` (more generally `ensureScroll` with the cursor at an existing item of height
     ≥ 1) one `Draw` of the repaired code into a viewport of ≥ 1 row shows item `c` — from ANY state
-    with sane indices and no pending scroll: whatever top/offset were (stale after a replacement of
-    the items, beyond the end, inside a gap), for every gap and every builder. -/
+    with sane indices: whatever top/offset/pending scroll were (stale after a replacement of the
+    items, beyond the end, inside a gap, a scroll requested before the cursor moved), for every gap
+    and every builder. -/
 theorem ensureScroll_draw_visible (cfg : Cfg) (hs : List Nat) (hlen : hs.length < 2 ^ 63) (s : St) (c W H hc : Nat)
     (hW : W ≠ 65535) (hH : H ≠ 65535) (hH1 : 1 ≤ H)
-    (ht : s.top < 2 ^ 63) (hp : s.pending = 0) (hcur : hs[c]? = some hc) (hc1 : 1 ≤ hc) :
+    (ht : s.top < 2 ^ 63) (hcur : hs[c]? = some hc) (hc1 : 1 ≤ hc) :
     ∃ s' cs, draw Facts.fixed cfg hs (ensureScroll { s with cursor := c }) W H = .ok (s', cs) ∧
       ∃ ch ∈ cs, ch.idx = c ∧ ch.height = hc ∧ Visible H ch := by
   have hcn : c < hs.length := getElem?_lt hcur
@@ -783,15 +784,14 @@ theorem ensureScroll_draw_visible (cfg : Cfg) (hs : List Nat) (hlen : hs.length 
   obtain ⟨s1, hs1⟩ : ∃ x, x = ensureScroll { s with cursor := c } := ⟨_, rfl⟩
   have hi1 : Inv s1 := by rw [hs1]; exact ensureScroll_inv s c ht hc63
   have hs1c : s1.cursor = c := by rw [hs1]; unfold ensureScroll; simp only []; split <;> rfl
-  have hs1p : s1.pending = 0 := by rw [hs1]; unfold ensureScroll; simp only []; split <;> exact hp
   have hs1t : s1.top ≤ c := by
     rw [hs1]; unfold ensureScroll; simp only []; split
     · rename_i h; exact Nat.le_of_lt h
     · exact Nat.le_refl _
-  have hs1w : s1.wantsCursor = false → s1.top = c ∧ s1.offset = 0 := by
+  have hs1w : s1.wantsCursor = false → s1.top = c ∧ s1.offset = 0 ∧ s1.pending = 0 := by
     rw [hs1]; unfold ensureScroll; simp only []; split
     · intro h; cases h
-    · intro _; exact ⟨rfl, rfl⟩
+    · intro _; exact ⟨rfl, rfl, rfl⟩
   rw [← hs1]
   obtain ⟨sc, ah2, s2, cs0, cs1, cs2, s3, hsc, hsu, hcs1, dd1, dd2, hhead, hrv, c2, h2, hd2, t3, o3, cu3, pe3, len2, w3,
     k2, k1, k6, htop2, hcur2, hwants, hpend, st3, hlen0, hdraw⟩ := draw_phases cfg hs hlen s1 W H hW hH hi1
@@ -807,7 +807,7 @@ theorem ensureScroll_draw_visible (cfg : Cfg) (hs : List Nat) (hlen : hs.length 
       rw [hcur2] at this ⊢
       omega
     · have hw' : s1.wantsCursor = false := by simpa using hw
-      obtain ⟨e1, e2⟩ := hs1w hw'
+      obtain ⟨e1, e2, hs1p⟩ := hs1w hw'
       have hsceq : sc = s1 := k6 (Or.inr (by rw [e1]; exact hcn))
       have hpos : ¬ (prologue sc).1 > 0 := by
         rw [hsceq]; unfold prologue; simp only [hs1p, e2]; split <;> simp
@@ -853,7 +853,7 @@ theorem ensureScroll_draw_visible (cfg : Cfg) (hs : List Nat) (hlen : hs.length 
     exact ⟨c', hc'mem, hc'idx.trans hidx, hc'h.trans hheight, hvis⟩
   · -- no wants-cursor request: the top is the cursor, offset 0, nothing pending: the child is at row 0
     have hw1 : s1.wantsCursor = false := by rw [← hwants]; simpa using hw
-    obtain ⟨e1, e2⟩ := hs1w hw1
+    obtain ⟨e1, e2, hs1p⟩ := hs1w hw1
     have hsceq : sc = s1 := k6 (Or.inr (by rw [e1]; exact hcn))
     have hpro : prologue sc = (0, { s1 with pending := 0 }) := by
       rw [hsceq]; unfold prologue; simp only [hs1p, e2]; split <;> simp
